@@ -283,6 +283,12 @@ def lazy_contract(lists):
 
 def lazy_part(run):
     n = 0
+    nv = [0]
+
+    def violation(*a, **k):
+        nv[0] += 1
+        if nv[0] <= 40:
+            run.violation(*a, **k)
     for k in range(0, 4):
         # all shapes, distinct items
         for shape in itertools.product(range(0, 5), repeat=k):
@@ -293,7 +299,7 @@ def lazy_part(run):
             run.case(1, key=f'lazy:{shape}' if nt else None,
                      sample={'contract': 'lazy_product', 'shape': shape} if shape in ((2, 3), (4, 1, 3)) else None)
             if bad:
-                run.violation(f'lazy_product:shape={list(shape)}', f'lazy_product over generators of sizes {shape}: {bad}',
+                violation(f'lazy_product:shape={list(shape)}', f'lazy_product over generators of sizes {shape}: {bad}',
                               witness={'contract': 'lazy', 'lists': lists}, native=bad)
         # repeated values: every list over {0, 1} with <= 3 items
         pool = [list(x) for ln in range(0, 4) for x in itertools.product((0, 1), repeat=ln)]
@@ -303,7 +309,7 @@ def lazy_part(run):
                 n += 1
                 run.case(1)
                 if bad:
-                    run.violation(f'lazy_product:values={json.dumps(lists)}', f'lazy_product over {lists}: {bad}',
+                    violation(f'lazy_product:values={json.dumps(lists)}', f'lazy_product over {lists}: {bad}',
                                   witness={'contract': 'lazy', 'lists': lists}, native=bad)
     run.bound(f'lazy_product: every shape of <= 3 one-shot generators with 0..4 distinct items each (156 shapes) and every tuple of <= 3 '
               f'lists over {{0,1}} with <= 3 items (repeated values): {n} calls, exhaustive')
@@ -469,6 +475,25 @@ def _target_item(i):
     for s in subs:
         p = cut(t, s, r)
         pats.append((f'cut{sorted(s)}:{p}[{",".join(map(str, p))}]', p))
+    # near misses: one bond order (every bond of ring patterns: second and later closures matter) or one element changed
+    near = []
+    for pn, p in pats:
+        if len(p) < 2:
+            continue
+        d = dump_mol(p)
+        ring = has_ring(p)
+        idx = list(range(len(d['bonds']))) if ring else [r.randrange(len(d['bonds']))]
+        if len(near) > _CAP_NEAR:
+            break
+        for j in idx:
+            d2 = {**d, 'bonds': [list(x) for x in d['bonds']]}
+            d2['bonds'][j][2] = 2 if d2['bonds'][j][2] == 1 else 1
+            near.append((f'near-bond{j}:{pn}', load_mol(d2)))
+        j = r.randrange(len(d['atoms']))
+        d3 = {**d, 'atoms': [list(x) for x in d['atoms']]}
+        d3['atoms'][j][1] = 'N' if d3['atoms'][j][1] == 'C' else 'C'
+        near.append((f'near-atom{j}:{pn}', load_mol(d3)))
+    pats.extend(near)
     # whole target against itself (is_equal positive branch)
     pats.append((f'self:{t}', cut(t, list(t), r)))
     # (b) patterns cut from other molecules
@@ -533,10 +558,11 @@ _N_FOREIGN = 12
 _N_TWO = 6
 _XCHECK = 3
 _NORD = 12
+_CAP_NEAR = 60
 
 
 def bounded(run):
-    global _CAP_SELF, _N_FOREIGN, _N_TWO, _XCHECK, _NORD
+    global _CAP_SELF, _N_FOREIGN, _N_TWO, _XCHECK, _NORD, _CAP_NEAR
     env.setup()
     import networkx as nx
     thorough = run.tier == 'thorough'
@@ -547,8 +573,12 @@ def bounded(run):
                'search semantics is C07)',
                'queries are matched with _cython=False; the compiled matcher is not installed (operators fall back to the Python matcher)')
 
+    import time
+    t0 = time.time()
+    sec = run.notes.setdefault('seconds', {})
     # ---- (3)
     lazy_part(run)
+    sec['lazy_product'] = round(time.time() - t0, 1)
 
     # ---- (2)
     _NORD = 60 if thorough else 12
@@ -559,6 +589,7 @@ def bounded(run):
     run.bound(f'_compile_query: every graph of the atlas with 1..{gmax} nodes ({len(_GRAPHS)} graphs, {n_multi} of them disconnected = '
               f'multi-component), all insertion orders for <= 4 nodes, identity + {_NORD} seeded shuffles of atom and neighbour insertion '
               f'order otherwise; plus the compiled form of every pattern used in the search contract')
+    ncq = 0
     for cases, keys, samples, viol in pmap(_cq_item, range(len(_GRAPHS)), chunksize=8):
         run.case(cases)
         for k in keys:
@@ -566,8 +597,11 @@ def bounded(run):
         for s in samples:
             run.case(0, sample=s)
         for v in viol:
-            run.violation(v['key'], v['what'], witness=v['witness'], native=v['native'])
+            ncq += 1
+            if ncq <= 40:
+                run.violation(v['key'], v['what'], witness=v['witness'], native=v['native'])
 
+    sec['compile_query'] = round(time.time() - t0, 1)
     # ---- (1) targets
     r = domains.rnd('b07')
     amax = 7 if thorough else 6
@@ -576,6 +610,7 @@ def bounded(run):
     _N_FOREIGN = 40 if thorough else 16
     _N_TWO = 16 if thorough else 8
     _XCHECK = 1 if thorough else 3
+    _CAP_NEAR = 300 if thorough else 60
     kw = dict(elements=('C', 'C', 'N', 'O'), p_double=.3, p_triple=0.)
     _TARGETS.clear()
     _POOL.clear()
@@ -619,7 +654,7 @@ def bounded(run):
               f'<= {amax} nodes; {n_mc} multi-component targets (unions of 2-3 of them, identical components included); {nfrag} connected '
               f'fragments of 8..{fmax} atoms cut from corpus molecules (seeded); {len(FIXED) + len(FIXED_RAW)} fixed targets with charges, isotopes, a metal, salts and a Kekule ring',
               f'patterns per target: every connected induced subgraph <= 5 atoms of the target (at most {_CAP_SELF}, seeded sample above), '
-              f'rebuilt with shuffled insertion order and fresh numbers; the whole target; {_N_FOREIGN} patterns cut from other molecules '
+              f'rebuilt with shuffled insertion order and fresh numbers; near misses of them (each bond order of ring patterns / one bond of the others toggled, one element changed; at most {_CAP_NEAR} + per target); the whole target; {_N_FOREIGN} patterns cut from other molecules '
               f'(pool of {len(_POOL)}); {_N_TWO} two-component patterns; {len(SMARTS)} SMARTS covering each primitive, rings and '
               f'multi-component queries (_cython=False)',
               'per pair: unfiltered / filtered search, six operators, 2-5 search scopes (image of an embedding, image + half of the rest as a '
@@ -629,7 +664,9 @@ def bounded(run):
               f'multi-component targets above against component-preserving automorphisms; whole-graph automorphisms of multi-component '
               f'molecules on the fixed list {MULTI_AUTO}'):
         run.bound(txt)
+    sec['build_domain'] = round(time.time() - t0, 1)
     res = pmap(_target_item, range(len(_TARGETS)), chunksize=2)
+    sec['search'] = round(time.time() - t0, 1)
     res += pmap(_multi_auto_item, MULTI_AUTO)
     nv = 0
     hit = set()
